@@ -281,7 +281,10 @@ class _AndFilterToSqlWhere:
                 if file_filter.negated
                 else sql.Page.path.like  # type: ignore[attr-defined]
             )
-            and_conds.append(like_op(file_filter.path_glob.replace("*", "%")))
+            # Only '*' is a wildcard. Every other character (including LIKE's
+            # own '_' and '%' wildcards) stands for itself.
+            like_arg = _escape_like(file_filter.path_glob).replace("*", "%")
+            and_conds.append(like_op(like_arg, escape="\\"))
         return and_(and_conds[0], *and_conds[1:])
 
     @_to_sql_where_helper
